@@ -158,6 +158,13 @@ func runProperty(P *Program, prop *Property, known KnownFile) (res RunResult) {
 		func() {
 			defer func() {
 				if e := recover(); e != nil {
+					if sh, ok := e.(ShapeError); ok {
+						// the code no longer has the shape the rule reads the property off: that
+						// is something the rule cannot establish about THIS tree — a violation to
+						// report — not a failure of the machinery
+						c.bad("shape", "module", "servitor", sh.Msg+": what this rule decides cannot be established on this tree")
+						return
+					}
 					if b, ok := e.(BrokenError); ok {
 						res.Broken = append(res.Broken, r.ID+": "+b.Msg)
 						return
@@ -184,7 +191,12 @@ func runProperty(P *Program, prop *Property, known KnownFile) (res RunResult) {
 			}
 		}
 		if rr.Obligations < r.Floor && rr.Violations == 0 { // a rule that reports a violation does not pass vacuously
-			res.Broken = append(res.Broken, fmt.Sprintf("%s: matched %d sites, below the floor of %d confirmed on the pinned tree (the rule would pass vacuously)", r.ID, rr.Obligations, r.Floor))
+			// fewer instances than were confirmed by hand on the pinned tree: the
+			// constructs the rule speaks about are (partly) gone from this tree, so
+			// what it decides is not established here — reported, not passed
+			c.bad("floor", "module", "servitor", fmt.Sprintf("the rule matched %d sites, below the floor of %d confirmed on the pinned tree: it would pass vacuously, so what it decides cannot be established on this tree", rr.Obligations, r.Floor))
+			rr.Obligations++
+			rr.Violations++
 		}
 		res.Rules = append(res.Rules, rr)
 		res.Obs = append(res.Obs, c.Obs...)
